@@ -51,6 +51,9 @@ func derPrelude(quant bool) string {
 (assert (forall ((t Int) (b g_SeqI)) (! (=> (and (<= 0 t) (<= t 255) (not (= (mod t 32) 31)) (g_isbytes b))
    (and (g_parse_ok (g_der t b)) (= (g_parse_tag (g_der t b)) t) (= (g_parse_body (g_der t b)) b) (= (g_parse_rest (g_der t b)) g_SeqI_empty)))
    :pattern ((g_der t b)))))
+(assert (forall ((x g_SeqI) (y g_SeqI)) (! (=> (g_parse_ok x) (and (g_parse_ok (g_SeqI_app x y)) (= (g_parse_tag (g_SeqI_app x y)) (g_parse_tag x))
+   (= (g_parse_body (g_SeqI_app x y)) (g_parse_body x)) (= (g_parse_rest (g_SeqI_app x y)) (g_SeqI_app (g_parse_rest x) y))))
+   :pattern ((g_parse_ok (g_SeqI_app x y))) :pattern ((g_parse_tag (g_SeqI_app x y))) :pattern ((g_parse_body (g_SeqI_app x y))) :pattern ((g_parse_rest (g_SeqI_app x y))))))
 (assert (forall ((s g_SeqI)) (! (=> (g_parse_ok s) (and (= s (g_SeqI_app (g_der (g_parse_tag s) (g_parse_body s)) (g_parse_rest s)))
    (<= 0 (g_parse_tag s)) (<= (g_parse_tag s) 255) (not (= (mod (g_parse_tag s) 32) 31)) (>= (g_SeqI_len s) 2)
    (=> (g_isbytes s) (and (g_isbytes (g_parse_body s)) (g_isbytes (g_parse_rest s)) (= (g_parse_tag s) (g_SeqI_idx s 0))))))
@@ -58,7 +61,7 @@ func derPrelude(quant bool) string {
 (assert (forall ((o g_SeqI)) (! (=> (g_oidvalid o) (and (g_oidbodyok (g_oidenc o)) (= (g_oiddec (g_oidenc o)) o) (g_isbytes (g_oidenc o)))) :pattern ((g_oidenc o)))))
 (assert (forall ((b g_SeqI)) (! (=> (g_oidbodyok b) (and (g_oidvalid (g_oiddec b)) (= (g_oidenc (g_oiddec b)) b) (>= (g_SeqI_len (g_oiddec b)) 2) (<= (g_SeqI_len (g_oiddec b)) (+ (g_SeqI_len b) 1)))) :pattern ((g_oiddec b)))))
 (assert (forall ((v Int)) (! (and (g_isbytes (g_intenc v)) (g_intbodyok (g_intenc v)) (= (g_intdec (g_intenc v)) v)) :pattern ((g_intenc v)))))
-(assert (forall ((v Int)) (! (and (g_isbytes (g_bigenc v)) (= (g_bigdec (g_bigenc v)) v)) :pattern ((g_bigenc v)))))
+(assert (forall ((v Int)) (! (and (g_isbytes (g_bigenc v)) (= (g_bigdec (g_bigenc v)) v) (g_intbodyok (g_bigenc v))) :pattern ((g_bigenc v)))))
 (assert (forall ((v Int)) (! (=> (g_utcok v) (and (g_isbytes (g_utcenc v)) (g_utcbodyok (g_utcenc v)) (= (g_utcdec (g_utcenc v)) v))) :pattern ((g_utcenc v)))))
 (assert (forall ((b g_SeqI)) (! (=> (g_utcbodyok b) (g_utcok (g_utcdec b))) :pattern ((g_utcdec b)))))
 `
@@ -484,6 +487,9 @@ func init() {
 	}
 	specFuncs["bigdec"] = func(e *specEnv, args []SV) SV {
 		return SV{V: TV{SInt, app("g_bigdec", e.term(args[0]))}}
+	}
+	specFuncs["timeval"] = func(e *specEnv, args []SV) SV { // the instant of a time.Time value
+		return SV{V: TV{SInt, e.timeTerm(args[0])}}
 	}
 	specFuncs["utcdec"] = func(e *specEnv, args []SV) SV {
 		return SV{V: TV{SInt, app("g_utcdec", e.term(args[0]))}}
